@@ -216,6 +216,8 @@ def build(w, variant='apply'):
     reap = [c for c in c04.build(w, 'apply') if c.qualname.endswith('_join_exited_workers')][0]
     redeclare(w)
     reap.prop = PROP
+    # (the loss-record clause that is a recorded finding of C04 -- D12 -- is C04's to report, not this property's)
+    reap.ensures = {k: v for k, v in reap.ensures.items() if k != 'job_of_a_vanished_worker_is_marked_in_a_tick_that_reaps_nothing'}
     reap.modifies = reap.modifies + ['g.seq', 'g.joined_at']        # this world records Process.join() calls
     reap.loops[1]['modifies'] = reap.loops[1]['modifies'] + ['g.seq', 'g.joined_at']
     reap.uses = dict(reap.uses, registries_stay_the_shared_objects=[])
